@@ -98,6 +98,18 @@ func NewCaseWriter(suite string) *CaseWriter {
 	return &CaseWriter{f: f, w: bufio.NewWriterSize(f, 1<<20), suite: suite}
 }
 
+// Begin records the case about to run: if the process hangs or dies while running it, the driver
+// finds the history that did it in <suite>.<batch>.current
+func (cw *CaseWriter) Begin(idx int, kind string, repl []byte) {
+	b, _ := Batch()
+	data, _ := json.Marshal(struct {
+		Idx  int             `json:"idx"`
+		Kind string          `json:"kind"`
+		Repl json.RawMessage `json:"repl"`
+	}{idx, kind, repl})
+	os.WriteFile(filepath.Join(OutDir(), fmt.Sprintf("%s.%d.current", cw.suite, b)), data, 0o644)
+}
+
 func (cw *CaseWriter) Put(c Case) {
 	b, err := json.Marshal(c)
 	if err != nil {
@@ -111,6 +123,8 @@ func (cw *CaseWriter) Put(c Case) {
 func (cw *CaseWriter) Close() {
 	cw.w.Flush()
 	cw.f.Close()
+	b0, _ := Batch()
+	os.Remove(filepath.Join(OutDir(), fmt.Sprintf("%s.%d.current", cw.suite, b0)))
 	// completion marker: the driver treats a batch without it as crashed
 	b, _ := Batch()
 	os.WriteFile(filepath.Join(OutDir(), fmt.Sprintf("%s.%d.done", cw.suite, b)), []byte(strconv.Itoa(cw.n)), 0o644)
